@@ -202,7 +202,15 @@ func runC17(c *Ctx, idx int) {
 			c.Violate("inputs-modified", detail(), "the run modified the start genome it was given: %s", d)
 			return
 		}
+		// ... and at the other log level: the outcome does not depend on process-wide settings that are no input
+		lvl := neat.LogLevel
+		if lvl == neat.LogLevelDebug {
+			neat.LogLevel = neat.LogLevelError
+		} else {
+			neat.LogLevel = neat.LogLevelDebug
+		}
 		again := c17Execute(sc, libSeed)
+		neat.LogLevel = lvl
 		c.Count("runs.same_input_objects", 1)
 		if again.errText != first.errText {
 			c.Violate("in-process/error", detail(), "the first run ended with %q, the run on the same input objects with %q", first.errText, again.errText)
